@@ -56,7 +56,7 @@ def inplaceWrite (s : VS) (o t : Tn) : VS × Tn :=
   let old := s.vals o.id
   let new := s.vals t.id
   ({ vals := fun i => if i = o.id then new else if i = s.next then old else s.vals i, next := s.next + 1 },
-   ⟨s.next, false⟩)
+   ⟨s.next, false, false⟩)
 
 /-- all the writes of one `to_module(inplace=True)` call: final values and the clones (the swap) in order -/
 def inplaceAll : VS → List (Tn × Tn) → VS × List Tn
